@@ -987,10 +987,11 @@ def brief_ops(case, rec):
 def materialise(case, scratch):
   """Writes the import trees of a replayed case back to disk; returns the pool."""
   pool = []
+  roots = {}       # programs that shared an import tree when the case was recorded share it again
   for i, q in enumerate(case['programs']):
     q = dict(q)
     if q.get('files'):
-      root = os.path.join(scratch, 'imp-replay-%d' % i)
+      root = roots.setdefault(q.get('root') or i, os.path.join(scratch, 'imp-replay-%d' % i))
       for rel, txt in q['files'].items():
         path = os.path.join(root, rel)
         os.makedirs(os.path.dirname(path), exist_ok=True)
